@@ -274,6 +274,10 @@ Definition bexp_record (b : bexp) (a : nat) (r : Q) : bexp :=
   mkBexp (upd a S (b_vis b)) (upd a (fun _ => mu') (b_avg b))
          (upd a (fun x => Qred (x + delta * (r - mu'))) (b_m2 b)) (S (b_ts b)).
 Definition bexp_reset (b : bexp) : bexp := bexp_new (length (b_vis b)).
+Inductive bop := BRecord (a : nat) (r : Q) | BReset.
+Definition bexp_step (b : bexp) (o : bop) : bexp :=
+  match o with BRecord a r => bexp_record b a r | BReset => bexp_reset b end.
+Definition bexp_after (A : nat) (ops : list bop) : bexp := fold_left bexp_step ops (bexp_new A).
 
 (* ------------------------------------------------------------------ Thompson normalisation *)
 (* src: ThompsonModel.hpp:sync(s,a) — the Dirichlet draw is gamma draws g_i (one per s1, shape
